@@ -23,7 +23,7 @@ from zeroconf import InterfaceChoice, IPVersion  # noqa: E402
 from zeroconf.asyncio import AsyncServiceBrowser, AsyncServiceInfo, AsyncZeroconf  # noqa: E402
 
 from . import wire  # noqa: E402
-from .loop import SimLoop  # noqa: E402
+from .loop import SimLivelock, SimLoop  # noqa: E402
 from .net import AF_INET, AF_INET6, FaultConfig, SimNet, SimSocket  # noqa: E402
 
 CUR_HOST = contextvars.ContextVar("sim_host", default=None)
@@ -508,6 +508,13 @@ class World:
         asyncio.set_event_loop(None)
         try:
             return self.loop.run_until_complete(main_coro)
+        except SimLivelock as e:
+            # a busy loop in the system under test is an observation about it, not a harness failure: it is reported
+            # through the same channel as an exception reaching the loop handler
+            self.loop.exceptions.append({"t": self.loop._now, "message": "livelock: " + str(e), "exception": "SimLivelock",
+                                         "type": "Livelock"})
+            self.log("livelock")
+            return None
         finally:
             asyncio.set_event_loop(None)
 
